@@ -30,4 +30,28 @@ PROPS = {
         "level_text": "Every explored (position, legal move) successor and every prefix of every explored history has exactly the reference FEN (placement, side, rights, normalised e.p., both counters), ~1e6 quick / ~2e7 thorough comparisons, incl. thousands of e.p. targets suppressed because the capture would be illegal and clocks past 128. Held on the executions observed.",
         "level_note": "trusted: harness/ref Make/Normalised (self-tested by perft and e.p. specials); the UCI path uses the real uci.Driver over in-memory readers",
     },
+    "C03": {
+        "pkg": "./c03",
+        "stages": [{"name": "main", "timeout_q": 1500, "timeout_t": 7200}],
+        "rule": "cases = make/undo pairs with a deep snapshot (all exported fields + full hash history + fullmove number via the board hook) taken before the make and compared after the undo: "
+                "(1) exhaustive trees of depth 2-3 from corpus and generated roots reached through a short move prefix, where EVERY pseudo-legal move (legal or not) and the null move is made and undone at every node; "
+                "(2) random lines of up to 400 plies of legal moves with interleaved null moves, unwound completely in reverse with the stored snapshot compared at every level; (3) debug.Perft(3) must leave the board unchanged. "
+                "The in-situ consistency hook (verifCheck) runs inside every MakeMove/UndoMove/MakeNullMove/UndoNullMove. distinct_nontrivial = distinct tree roots + distinct lines. " + VALID,
+        "assumptions": [REF, "snapshot equality compares slice contents and length, not capacity"],
+        "technique": "runtime monitor: invariant at a hook (deep board snapshot before make / after undo) over exhaustive shallow trees and deep random lines incl. illegal pseudo-legal moves and null moves",
+        "level_text": "Every explored make/undo pair (legal moves, illegal pseudo-legal moves, null moves; nested up to 400 deep; ~1e7 quick / ~2e8 thorough) restored every attribute of the board including the whole hash history. Held on the executions observed.",
+        "level_note": "trusted: the add-only snapshot hook board/export_verif.go copies every field of Board; positions come from the seeded generators",
+    },
+    "C04": {
+        "pkg": "./c04",
+        "stages": [{"name": "main", "timeout_q": 1500, "timeout_t": 7200}],
+        "rule": "cases = board states observed after every operation of (1) random walks of 50-400 operations mixing legal moves, illegal pseudo-legal make/undo, null moves (search-like: not in check, never two in a row; and unrestricted) and partial undos: "
+                "incremental hash == from-scratch hash (hook) and SquaresToPiece/Pieces/Colors describe one placement, plus FromFEN(b.FEN()).Hash()==b.Hash() on a sample; "
+                "(2) full-width trees of depth 2-4 where a map (placement, side, rights, normalised e.p.) -> hash must stay functional (transpositions by permuted move orders); "
+                "(3) the same consistency check executed in situ by the board hook at every make/undo inside real searches. distinct_nontrivial = distinct walks + distinct tree roots. " + VALID,
+        "assumptions": [REF, "the from-scratch hash exposed by the add-only hook is the repo's own calculateHash"],
+        "technique": "runtime monitor: invariant at a hook (incremental hash vs recomputed hash, three placement encodings agree) after every operation + transposition map over full-width trees + in-situ check inside the real search",
+        "level_text": "After every explored make / null-make / undo (~2e6 quick / ~4e7 thorough boundary states, ~1e7+ in-situ states inside real searches) the incremental hash equalled the recomputed one and the three placement encodings agreed; every position reached by two move orders carried one hash. Held on the executions observed.",
+        "level_note": "trusted: repo's own calculateHash as the definition of the position hash; ref.Key() as position identity",
+    },
 }
